@@ -164,6 +164,7 @@ pub fn drive(tx: &tir::Tx, args: &ArgMap, store_utxos: &[Utxo], pp: &PP, o: &mut
     stage!("apply_args", |t: tir::Tx| t.apply_args(args));
     stage!("apply_fees", |t: tir::Tx| t.apply_fees(170_000));
     stage!("reduce", |t: tir::Tx| t.reduce());
+    let before_ops = cur.clone();
     stage!("compiler-ops", |t: tir::Tx| t.apply(&mut comp));
     stage!("apply_inputs", |t: tir::Tx| t.apply_inputs(&inputs));
     stage!("reduce", |t: tir::Tx| t.reduce());
@@ -178,6 +179,30 @@ pub fn drive(tx: &tir::Tx, args: &ArgMap, store_utxos: &[Utxo], pp: &PP, o: &mut
         Ok(Err(_)) => o.class("compile:err"),
         Err(p) => report(o, "compile", p),
     }
+    // 3. a second round on the same instance, as the resolver's loop does: the compiler ops now see the body the
+    // first round left behind (whatever it holds - no outputs at all, fewer outputs than an index asks for)
+    cur = before_ops;
+    stage!("compiler-ops(second round)", |t: tir::Tx| t.apply(&mut comp));
+    stage!("apply_inputs", |t: tir::Tx| t.apply_inputs(&inputs));
+    stage!("reduce", |t: tir::Tx| t.reduce());
+    o.evals += 1;
+    match panics::catch(|| comp.compile(&AnyTir::V1Beta0(cur.clone()))) {
+        Ok(_) => {}
+        Err(p) => report(o, "compile(second round)", p),
+    }
+}
+
+/// the same template with other output shapes: none at all, and every output optional with nothing in it (such
+/// outputs are dropped from the body)
+fn output_shapes(tx: &tir::Tx) -> Vec<(&'static str, tir::Tx)> {
+    let mut none = tx.clone();
+    none.outputs.clear();
+    let mut vanishing = tx.clone();
+    for out in vanishing.outputs.iter_mut() {
+        out.optional = true;
+        out.amount = tirb::assets(vec![tirb::lovelace(0)]);
+    }
+    vec![("no-outputs", none), ("vanishing-outputs", vanishing)]
 }
 
 const PROBES: [Probe; 5] = [Probe::Value, Probe::Query, Probe::Fees, Probe::QueryWithValue, Probe::TipSlot];
@@ -206,7 +231,7 @@ impl Prop for C14 {
              address lengths {}, utxo-ref txid lengths, 9 wrong-typed values) x 4 stores x 6 protocol-parameter sets (full product of alphabet with the \
              default store/pparams; stores x pparams with the default value). Language level: every tx of the corpus x every parameter x its boundary \
              alphabet (one non-default argument at a time{}) x stores x pparams. Each combination is driven through resolve_tx and through \
-             apply_args / apply_fees / reduce / compiler ops / apply_inputs / reduce / compile (continuing after errors). Oracle: every call returns \
+             apply_args / apply_fees / reduce / compiler ops / apply_inputs / reduce / compile (continuing after errors) and a second round of compiler ops / compile on the same instance; every template also with its outputs removed and with every output optional and empty. Oracle: every call returns \
              Ok or Err. Non-trivial = at least one back-end call executed; distinct = (subject, argument, store, pparams).",
             tirgen::contexts().len(),
             if tier.is_thorough() { " to depth 2" } else { " to depth 1" },
@@ -288,6 +313,10 @@ impl Prop for C14 {
                         o.key(hash64(&(src, &name, p, vi)));
                     }
                 }
+                for (shape, variant) in output_shapes(&tx) {
+                    drive(&variant, &defaults, &all_stores[0].1, &all_pp[0].1, &mut o, &json!({"file": case["file"], "tx": name, "outputs": shape}), qual);
+                    o.key(hash64(&(src, &name, shape)));
+                }
                 // a missing argument and an empty argument map
                 drive(&tx, &ArgMap::new(), &all_stores[0].1, &all_pp[0].1, &mut o, &json!({"file": case["file"], "tx": name, "args": "none"}), qual);
             }
@@ -314,6 +343,20 @@ impl Prop for C14 {
             for (pn, pp) in &all_pp {
                 drive(&tx, &defaults, st, pp, &mut o, &json!({"tree": desc, "args": "defaults", "store": sn, "pparams": pn}), qual);
                 o.key(hash64(&(&desc, sn, pn)));
+            }
+        }
+        for (shape, variant) in output_shapes(&tx) {
+            let vparams = find_params(&variant);
+            let vdefaults: ArgMap = vparams.iter().map(|(k, ty)| (k.clone(), alphabet(ty, tier)[0].clone())).collect();
+            for (vi, val) in [ArgValue::Int(5), ArgValue::Int(0), ArgValue::Int(1)].into_iter().enumerate() {
+                let mut args = vdefaults.clone();
+                if vparams.contains_key(tirgen::PROBE_PARAM) && kind_type(hole) == Type::Int {
+                    args.insert(tirgen::PROBE_PARAM.into(), val);
+                } else if vi > 0 {
+                    break;
+                }
+                drive(&variant, &args, &all_stores[0].1, &all_pp[0].1, &mut o, &json!({"tree": desc, "outputs": shape, "value": vi}), qual);
+                o.key(hash64(&(&desc, shape, vi)));
             }
         }
         if params.contains_key(tirgen::PROBE_PARAM) {
